@@ -18,7 +18,7 @@ PropOK(r) ==
   /\ \A i \in DOMAIN r.ref : G!ErrOKFor(r.s, r.ref[i])
   /\ \A i \in DOMAIN r.path : G!ErrOKFor(r.s, r.path[i])
 \* agreement with the operational layer (same error list); a difference here alone is model drift
-ModelOK(r) == G!ScanRef(r.s) = r.ref /\ G!ScanPath(r.s) = r.path
+ModelOK(r) == G!HasIllegal(r.s) \/ (G!ScanRef(r.s) = r.ref /\ G!ScanPath(r.s) = r.path)
 
 Init == l = 1 /\ mism = <<>> /\ drift = <<>> /\ s = <<>> /\ tc = ""
 Step ==
